@@ -4,10 +4,13 @@ SPEC = dict(
     rule="one case = one recorded history against a fresh cluster of real data-node processes (3 replicas; 5 in a thorough sub-run; pebble, and rocksdb in a thorough sub-run; "
          "TickMs 100 / ElectionTick 5, SnapCount 40-200, SnapCatchup 5-30, small WAL segments, so snapshots, log compaction, WAL cuts and snapshot catch-up happen inside a history): "
          "4-8 client goroutines issue INCR, INCRBY, GETSET, SETNX, APPEND, HINCRBY, HSETNX, LPUSH, LPOP, RPOP, SADD, SPOP, ZINCRBY with unique arguments plus leader reads on 3-5 typed keys "
-         "while a nemesis draws from kill -9 of the leader / of a random replica, SIGTERM, restart, leader transfer, SIGSTOP+SIGCONT, always leaving a majority alone; then all replicas "
+         "while a nemesis draws from kill -9 of the leader / of a random replica, SIGTERM, restart, leader transfer, SIGSTOP+SIGCONT (kills always leave a majority alone; pauses are schedules, not faults: some outlast the 4 s proposal deadline, "
+         "one kind deschedules every follower at once, and in a quarter of the histories the apply loop of one replica is held once for 4.2-5.2 s through the crash-point hook); half of the clients keep their connection after an error reply; then all replicas "
          "are brought back, the cluster settles (barrier write, equal and quiet applied indexes) and every replica is dumped. "
          "Non-trivial = at least 30 acknowledged writes, at least one kill -9 while a write was in flight, and at least one observed change of leader between the first and the last acknowledged write. "
-         "distinct_nontrivial counts distinct drawn plans whose recorded history satisfied that rule.",
+         "distinct_nontrivial counts distinct drawn plans whose recorded history satisfied that rule. "
+         "A second sub-run (waiters) checks the pending request table as a state machine of its own on the real proposal path of one KVNode behind a schedule-owning fake raft: proposals are queued, cancelled through the cancel function raft holds, "
+         "dropped for good or committed later in drawn batches; every request that was not cancelled must get exactly the model's reply for its place in the commit order and only after its own entry was applied, and no finished id may stay registered.",
     assumptions=[
         "the interleaving of clients, nemesis and replicas is the operating system's: a case is a pure function of the seed only as far as the drawn plan goes; the reproducible unit is the recorded history, which the deterministic checker re-examines (./check C04 --replay <violation-*.json>)",
         "invoke/return stamps are taken from the test process's monotonic clock immediately before a command is written to and after its reply is read from the socket; clients talk to the node the control endpoints report as leader, re-reading it after any error and now and then by plan, so after a leader transfer part of the writes enter through followers",
@@ -21,12 +24,14 @@ SPEC = dict(
     quick=[
         dict(name="selftest", pkg="c04_linear", test="TestCheckerSelfTest", checks=1, shards=1),
         dict(name="known", pkg="c04_linear", test="TestKnown.*", checks=1, shards=1),
+        dict(name="waiters", pkg="c04_linear", test="TestPendingTable", checks=2500, shards=2),
         dict(name="n3", pkg="c04_linear", test="TestLinearizable", checks=4, shards=4, timeout=600, shrinktime="0s",
              env={"C04_NODES": 3, "C04_ENGINE": "pebble", "C04_PORT_BASE": 21000}),
     ],
     thorough=[
         dict(name="selftest", pkg="c04_linear", test="TestCheckerSelfTest", checks=1, shards=1),
         dict(name="known", pkg="c04_linear", test="TestKnown.*", checks=1, shards=1),
+        dict(name="waiters", pkg="c04_linear", test="TestPendingTable", checks=60000, shards=4),
         dict(name="n3", pkg="c04_linear", test="TestLinearizable", checks=45, shards=5, timeout=1800, shrinktime="0s",
              env={"C04_NODES": 3, "C04_ENGINE": "pebble", "C04_PORT_BASE": 21000}),
         dict(name="n5", pkg="c04_linear", test="TestLinearizable", checks=35, shards=2, timeout=1800, shrinktime="0s",
@@ -41,7 +46,8 @@ TEXT = dict(
     design_ref="DESIGN.md §4 C04, §3 D",
     technique="fault-injected concurrent histories against real multi-process clusters (plans drawn with rapid; kill -9 aimed at in-flight writes, SIGTERM, restart, leader transfer, SIGSTOP/SIGCONT), "
               "checked per key for linearizability with porcupine against a sequential model of the command set (operations of unknown outcome open-ended, the final value as a last read), "
-              "plus exactly-once accounting of uniquely tagged effects, a same-connection visibility rule for acknowledged SETs, and equality of the logical dumps of all replicas after settling",
+              "plus exactly-once accounting of uniquely tagged effects, a same-connection visibility rule for acknowledged SETs, and equality of the logical dumps of all replicas after settling; "
+              "and a rapid state-machine test of the pending request table (propose / cancel / drop / commit in drawn batches on the real KVNode proposal path behind a fake raft, oracle = reference model at the request's place in the commit order)",
     level_text="Exploration with fault injection: each tier records a fixed number of histories (quick 16, thorough 330: 225 on 3 replicas, 70 on 5 replicas, 35 on the rocksdb engine) and every completed history "
                "must linearize, account for every acknowledged write exactly once and leave identical replicas. The schedule inside a history is the operating system's, not the harness's. "
                "No absence claim; this is the weakest kind of evidence in the suite and is labelled so.",
@@ -49,7 +55,6 @@ TEXT = dict(
                "self-test of the checker on about fifty hand-written good and bad histories). Out of reach: schedules the OS does not produce, power loss (kill -9 keeps the page cache; see C05/C06), "
                "network partitions other than a stopped process, membership changes. Locally answered replies (reads, negative replies of the two-stage commands) are excluded from the linearizability check "
                "because the code serves them without a quorum round. Histories that do not settle or exceed the checker's time limit are counted as inconclusive in evidence, not passed. "
-               "One open known finding (C04-checkpoint-not-frozen, same root cause as C06-checkpoint-cut-after-apply-resumed) was found by this check on the unchanged tree under machine load: a failing history "
-               "that contains its trigger (a restored checkpoint that took longer than its 20 ms 'frozen' signal, read from the replicas' logs) is set aside and counted as excluded_by_known_finding; "
-               "the deterministic engine-level probe TestKnownCheckpointNotFrozen reports it on every run.",
+               "The finding this check made on the unchanged tree under machine load (C04-checkpoint-not-frozen, same root cause as C06-checkpoint-cut-after-apply-resumed: a restored checkpoint that took longer than its 20 ms 'frozen' signal) "
+               "is repaired in /repo; its engine-level probe TestKnownCheckpointNotFrozen runs in every tier.",
 )
